@@ -21,7 +21,7 @@ BUDGET_S = {'quick': 300, 'thorough': 1800}
 RULE = ('one generated dependency graph per example (3-25 formula cells, <= 3 sheets); a case = (graph, entry cell); non-trivial = the entry '
         'reaches >= 3 formula cells through at least one cross-sheet or area edge while some workbook cell is not reachable; cyclic '
         'cases (graph + back edge, entry) are counted as non-trivial when the entry reaches the cycle; distinct = distinct (graph, entry)')
-ASSUMPTIONS = ['formulas are total numeric expressions (+, *, SUM, IF, INDEX, MAX); areas only cover cells earlier in the layout order',
+ASSUMPTIONS = ['formulas are total numeric expressions (+, *, SUM, IF, INDEX, MAX, SUMIF over two areas of one shape); areas only cover cells earlier in the layout order',
                'blank cells inside a referenced area need not be members of the slice class (closure is asserted for non-blank cells)']
 
 TITLES = ['S', 'T', 'U']
@@ -74,6 +74,8 @@ def formula_text(node, nodes):
         return f"=INDEX({area_text(f['area'], s)},1,1)"
     if k == 'shared':
         return f"=SUM({area_text(f['area'], s)})+SUM({area_text(f['area'], s)})"
+    if k == 'sumif':
+        return f"=SUMIF({area_text(f['area'], s)},\">0\",{area_text(f['area2'], s)})"
     if k == 'raw':
         return f['text']
     raise ValueError(k)
@@ -88,6 +90,8 @@ def deps_of(node, nodes, coord_index, maxrow):
     coords = []
     if 'area' in f:
         coords = area_coords(f['area'], maxrow)
+    if 'area2' in f:
+        coords = coords + area_coords(f['area2'], maxrow)
     if f['k'] == 'raw':
         idx = list(f.get('deps', []))
         coords = [tuple(x) for x in f.get('coords', [])]
@@ -168,6 +172,9 @@ def ref_values(spec, coord_index, maxrow):
             vals[i] = vals[f['b']] if num(vals[f['a']]) > f['t'] else vals[f['c']]
         elif k == 'index':
             vals[i] = av[0]
+        elif k == 'sumif':
+            bv = [cv(c) for c in area_coords(f['area2'], maxrow)]
+            vals[i] = sum(num(b) for a, b in zip(av, bv) if a is not F.BLANK and a > 0)
         else:
             vals[i] = None
     return vals
@@ -295,12 +302,14 @@ def strategy():
     def spec(draw):
         nsheets = draw(st.integers(1, 3))
         nrows = draw(st.integers(3, 6))
+        # the whole layout may sit further right: four formula columns that straddle Z / AA (or ZZ / AAA), the data column beyond
+        coff = draw(st.sampled_from([0, 0, 0, 22, 23, 24, 25, 48, 698, 700]))
         nodes = []
         # data column F: constants only
         for s in range(nsheets):
             for r in range(1, draw(st.integers(1, 4)) + 1):
-                nodes.append({'s': s, 'c': DATA_COL, 'r': r, 'v': draw(st.integers(1, 9))})
-        coords = [(r, s, c) for r in range(1, nrows + 1) for s in range(nsheets) for c in range(1, 5)]
+                nodes.append({'s': s, 'c': DATA_COL + coff, 'r': r, 'v': draw(st.integers(1, 9))})
+        coords = [(r, s, c) for r in range(1, nrows + 1) for s in range(nsheets) for c in range(1 + coff, 5 + coff)]
         chosen = sorted(draw(st.lists(st.sampled_from(coords), min_size=min(8, len(coords)), max_size=min(28, len(coords)), unique=True)))
         placed = []   # indices into nodes in layout order (excluding data column)
         for (r, s, c) in chosen:
@@ -316,15 +325,25 @@ def strategy():
                 continue
             earlier_f = [i for i in earlier if nodes[i].get('f')]
             pick = lambda: draw(st.sampled_from(earlier_f)) if earlier_f and draw(st.integers(0, 9)) < 7 else draw(st.sampled_from(earlier))
-            fk = draw(st.sampled_from(['add', 'add', 'mul', 'sum', 'sum', 'sum2', 'max', 'if', 'index', 'shared', 'colsum']))
+            fk = draw(st.sampled_from(['add', 'add', 'mul', 'sum', 'sum', 'sum2', 'max', 'if', 'index', 'shared', 'colsum', 'sumif']))
             if fk == 'colsum':
-                f = {'k': 'sum', 'area': {'s': draw(st.integers(0, nsheets - 1)), 'c0': DATA_COL, 'col': True}}
+                f = {'k': 'sum', 'area': {'s': draw(st.integers(0, nsheets - 1)), 'c0': DATA_COL + coff, 'col': True}}
+            elif fk == 'sumif' and r > 1:
+                # criteria area and a sum range of the same shape, both strictly above this cell (any sheet, any place; row 1 included)
+                h, w = draw(st.integers(1, r - 1)), draw(st.integers(1, 4))
+                def place():
+                    r0_ = draw(st.integers(1, r - h))
+                    c0_ = draw(st.integers(1 + coff, 5 + coff - w))
+                    return {'s': draw(st.integers(0, nsheets - 1)), 'c0': c0_, 'r0': r0_, 'c1': c0_ + w - 1, 'r1': r0_ + h - 1}
+                f = {'k': 'sumif', 'area': place(), 'area2': place()}
+            elif fk == 'sumif':
+                f = {'k': 'mul', 'a': pick()}
             elif fk in ('sum', 'sum2', 'max', 'index', 'shared'):
                 # an area strictly before this cell in layout order: full rows above (any sheet), or the same row to the left on the same sheet
                 opts = []
                 if r > 1:
                     opts.append('above')
-                if c > 1:
+                if c > 1 + coff:
                     opts.append('left')
                 if not opts:
                     f = {'k': 'mul', 'a': pick()}
@@ -334,11 +353,11 @@ def strategy():
                         s2 = draw(st.integers(0, nsheets - 1))
                         r0 = draw(st.integers(1, r - 1))
                         r1 = draw(st.integers(r0, r - 1))
-                        c0 = draw(st.integers(1, 4))
-                        c1 = draw(st.integers(c0, 4))
+                        c0 = draw(st.integers(1 + coff, 4 + coff))
+                        c1 = draw(st.integers(c0, 4 + coff))
                         area = {'s': s2, 'c0': c0, 'r0': r0, 'c1': c1, 'r1': r1}
                     else:
-                        c0 = draw(st.integers(1, c - 1))
+                        c0 = draw(st.integers(1 + coff, c - 1))
                         area = {'s': s, 'c0': c0, 'r0': r, 'c1': c - 1, 'r1': r}
                     f = {'k': fk, 'area': area}
                     if fk == 'sum2':
